@@ -578,7 +578,11 @@ class Date(FormattableMixin, date):
         if day_of_week is None:
             return dt.set(day=1)
 
-        month = calendar.monthcalendar(dt.year, dt.month)
+        # Always a Monday-first layout (day_of_week indexes the columns):
+        # calendar.monthcalendar() follows calendar.setfirstweekday()
+        month = calendar.Calendar(calendar.MONDAY).monthdayscalendar(
+            dt.year, dt.month
+        )
 
         calendar_day = day_of_week
 
@@ -603,7 +607,11 @@ class Date(FormattableMixin, date):
         if day_of_week is None:
             return dt.set(day=self.days_in_month)
 
-        month = calendar.monthcalendar(dt.year, dt.month)
+        # Always a Monday-first layout (day_of_week indexes the columns):
+        # calendar.monthcalendar() follows calendar.setfirstweekday()
+        month = calendar.Calendar(calendar.MONDAY).monthdayscalendar(
+            dt.year, dt.month
+        )
 
         calendar_day = day_of_week
 
